@@ -482,8 +482,14 @@ func (k PublicKeyBTCEC) Address() Address {
 	return nil
 }
 
+// VerifyBytes checks what PrivateKeyBTCEC.Sign produces: a DER-encoded ECDSA
+// signature over msg
 func (k PublicKeyBTCEC) VerifyBytes(msg []byte, sig []byte) bool {
-	return true
+	s, err := btcec.ParseDERSignature(sig, btcec.S256())
+	if err != nil {
+		return false
+	}
+	return s.Verify(msg, &k.key)
 }
 
 func (k PublicKeyBTCEC) Equals(PubkeyBTCEC PublicKey) bool {
